@@ -270,7 +270,7 @@ def main():
             bad = {}
             if rc != 0:
                 gl = open(gen).read().split('\n')
-                for m in re.finditer(r'^error(?:\[E\d+\])?: (.*)\n\s*--> [^:]+:(\d+):', err, re.M):
+                for m in re.finditer(r'^error(?:\[E\d+\])?: (.*)\n(?:.*\n)??\s*--> [^:\n]+:(\d+):', err, re.M):
                     mod = module_of_line(int(m.group(2)), gl)
                     if mod.startswith('views::'): bad[mod.split('::')[1]] = 'does not compile with its contracts: ' + m.group(1)[:120]
                     elif mod.startswith('props::'): bad.setdefault('__props__', []).append(mod.split('::')[1]) if isinstance(bad.get('__props__', []), list) else None
